@@ -10,6 +10,7 @@ var propRunners = map[string]func(c *Checker){
 	"C01": runC01,
 	"C04": runC04,
 	"C13": runC13,
+	"C15": runC15,
 	"C19": runC19,
 	"C20": runC20,
 }
